@@ -6799,6 +6799,7 @@ handlers = {
     'BSC_setuid': handle_setuid,
     'BSC_getuid': handle_getuid,
     'BSC_geteuid': handle_geteuid,
+    'BSC_wait4': handle_wait4,
     'BSC_recvmsg': handle_recvmsg,
     'BSC_sendmsg': handle_sendmsg,
     'BSC_recvfrom': handle_recvfrom,
